@@ -82,8 +82,16 @@ func servicesText(ver int, invalidEntry bool) string {
 	}
 	// The service also covers a host that rule lists have verdicts on.
 	rules = append(rules, "||ads.multi-shared.com^")
+	// A second service with rules of its own; both know one common host.
+	var rulesB []string
+	for j := 0; j < markers; j++ {
+		rulesB = append(rulesB, "||"+marker(j, ver, "svb")+"^")
+	}
+	rulesB = append(rulesB, "||both.services.test^")
+	rules = append(rules, "||both.services.test^")
 	svcs := []map[string]any{
 		{"id": "svc_a", "name": "Service A", "rules": rules},
+		{"id": "svc_b", "name": "Service B", "rules": rulesB},
 	}
 	if invalidEntry {
 		// An entry the client cannot accept next to a good one: the update
@@ -636,7 +644,8 @@ func runC13(s *kernel.Sim, cfg string) {
 			} else {
 				stErr = l.st.Refresh(ctx)
 			}
-			if ctx.Err() != nil {
+			deadlineExpired := ctx.Err() != nil
+			if deadlineExpired {
 				s.Probe("refresh-deadline-expired")
 			}
 			cancel()
@@ -658,7 +667,18 @@ func runC13(s *kernel.Sim, cfg string) {
 					return true
 				}
 
-				return !asked || (f != simhttp.OK && f != simhttp.SlowBody)
+				if !asked {
+					// Not even requested: that is as good as a failed
+					// download only when something excuses it, the deadline
+					// of the whole refresh having run out, or the index not
+					// having arrived (nothing can be asked for then).
+					indexFault, indexAsked := l.roundFaults["/index.json"]
+					indexFailed := !indexAsked || (indexFault != simhttp.OK && indexFault != simhttp.SlowBody)
+
+					return deadlineExpired || (path != "/index.json" && indexFailed)
+				}
+
+				return f != simhttp.OK && f != simhttp.SlowBody
 			}
 
 			// Expected versions, from the statement.
